@@ -47,8 +47,8 @@ def build_kwargs(case, root, out):
 
 
 def build_argv(case, root, out):
-    argv = ["create", root, "-o", out, "--prog", str(case.get("progress", 0)),
-            "--meta-version", str(case["version"])]
+    argv = list(case.get("pre", [])) + ["create", root, "-o", out, "--prog", str(case.get("progress", 0)),
+                                         "--meta-version", str(case["version"])]
     if case.get("P"):
         argv += ["--piece-length", str(case["P"])]
     if case.get("align"):
@@ -88,14 +88,112 @@ def create_meta(case, root, out):
         return _exc_status(ex)
 
 
+class _Env:
+    """Environment variations of one create: cwd, path spelling, directory enumeration order,
+    clock.  Everything is restored on exit."""
+
+    def __init__(self, case, root):
+        self.case, self.root = case, root
+        self.saved = {}
+
+    def __enter__(self):
+        import itertools
+        c = self.case
+        self.cwd = os.getcwd()
+        perm = c.get("enum_perm")
+        if perm is not None:
+            real_listdir, real_scandir = os.listdir, os.scandir
+            self.saved["listdir"], self.saved["scandir"] = real_listdir, real_scandir
+
+            def permute(items, key):
+                items = sorted(items, key=key)
+                n = len(items)
+                if n < 2:
+                    return items
+                perms = list(itertools.islice(itertools.permutations(range(n)), 0, 720))
+                idx = perms[perm % len(perms)]
+                return [items[i] for i in idx]
+
+            def listdir(path="."):
+                return permute(real_listdir(path), lambda x: x)
+
+            class _Scan:
+                def __init__(self, path):
+                    self._it = real_scandir(path)
+                    self._items = None
+
+                def __enter__(self):
+                    return self
+
+                def __exit__(self, *a):
+                    self._it.close()
+                    return False
+
+                def close(self):
+                    self._it.close()
+
+                def __iter__(self):
+                    return iter(permute(list(self._it), lambda e: e.name))
+
+            os.listdir = listdir
+            os.scandir = lambda path=".": _Scan(path)
+        clock = c.get("clock")
+        if clock is not None:
+            import datetime as _dt
+            import torrentfile.torrent as tt
+            self.saved["datetime"] = tt.datetime
+
+            class FakeDT(_dt.datetime):
+                @classmethod
+                def now(cls, tz=None):
+                    return _dt.datetime.fromtimestamp(clock)
+            tt.datetime = FakeDT
+        return self
+
+    def spelled(self):
+        """The path string handed to the creator, and the directory to run in."""
+        c, root = self.case, self.root
+        sp = c.get("spelling", "abs")
+        parent, name = os.path.dirname(root), os.path.basename(root)
+        if sp == "abs":
+            return root, c.get("cwd_dir") or parent
+        if sp == "dot":                       # "." from inside the directory
+            return ".", root
+        rel = {"rel": name, "dotslash": "./" + name, "trail": name + "/", "trail2": name + "//",
+               "updown": "zz/../" + name, "slashdot": name + "/.", "absdot": None, "dbl": None}[sp]
+        if sp == "absdot":
+            return root + "/.", parent
+        if sp == "dbl":
+            return parent + "//" + name, parent
+        if sp == "updown":
+            os.makedirs(os.path.join(parent, "zz"), exist_ok=True)
+        return rel, parent
+
+    def __exit__(self, *a):
+        os.chdir(self.cwd)
+        if "listdir" in self.saved:
+            os.listdir, os.scandir = self.saved["listdir"], self.saved["scandir"]
+        if "datetime" in self.saved:
+            import torrentfile.torrent as tt
+            tt.datetime = self.saved["datetime"]
+        return False
+
+
 def run_create(case):
     sbx = new_sandbox("cr")
     try:
         tree = case["tree"]
-        root = alpha.materialize(tree, os.path.join(sbx, "p"))
+        base = os.path.join(sbx, "q", "deeper") if case.get("copy") else os.path.join(sbx, "p")
+        root = alpha.materialize(tree, base)
         os.makedirs(os.path.join(sbx, "o"))
-        out = os.path.join(sbx, "o", "m.torrent")
-        status = create_meta(case, root, out)
+        os.makedirs(os.path.join(sbx, "elsewhere"))
+        out = os.path.join(sbx, "o", case.get("outname", "m.torrent"))
+        if case.get("cwd_mode") == "elsewhere":
+            case = dict(case, cwd_dir=os.path.join(sbx, "elsewhere"))
+        with _Env(case, root) as env:
+            path, cwd = env.spelled()
+            os.chdir(cwd)
+            status = create_meta(case, path, out)
         rec = {"id": case["id"], "op": "create", "group": case.get("group", "none"),
                "clauses": case["clauses"], "version": case["version"],
                "align": bool(case.get("align")), "P": case.get("P") or -1,
